@@ -14,7 +14,7 @@ class TranslatorPython(Translator):
     # Implemented language
     __LANG__ = "Python"
     # Operations translation
-    op_no_translate = ["+", "-", "/", "%", ">>", "<<", "&", "^", "|", "*"]
+    op_no_translate = ["+", "-", "%", ">>", "&", "^", "|", "*"]
 
     def from_ExprInt(self, expr):
         return str(expr)
@@ -70,6 +70,17 @@ class TranslatorPython(Translator):
                     (" %s " % expr.op).join(args),
                     (1 << expr.size) - 1
                 )
+        elif expr.op == "/":
+            # Unsigned integer division
+            args = list(map(self.from_expr, expr.args))
+            return "((%s) & 0x%x)" % (" // ".join(args), (1 << expr.size) - 1)
+        elif expr.op == "<<":
+            # Shifting by the size already clears the result: avoid building
+            # huge intermediate integers for large counts
+            args = list(map(self.from_expr, expr.args))
+            return "((%s << min(%s, 0x%x)) & 0x%x)" % (
+                args[0], args[1], expr.size, (1 << expr.size) - 1
+            )
         elif expr.op == "parity":
             # Even parity of the low byte: fold the byte on 4 bits and look
             # up the parity of the nibble in the 16 bits constant 0x9669
